@@ -106,7 +106,7 @@ func (c *containerImpl) Child(name string) Node {
 		idx := listPathRe.FindStringIndex(name)
 		index, _ := strconv.Atoi(name[idx[0]+1 : idx[1]-1])
 		name2 := name[0:idx[0]]
-		if n, ok := c.children[name2]; ok {
+		if n := c.Child(name2); n != nil {
 			if l, ok := n.(List); ok {
 				if index > l.Size()-1 {
 					// index out of bounds
@@ -228,10 +228,10 @@ func ensureList(name string, parent ContainerBuilder) (ListBuilder, uint, string
 	index, _ := strconv.Atoi(name[idx[0]+1 : idx[1]-1])
 	name2 := name[0:idx[0]]
 	var list ListBuilder
-	if l := parent.Child(name2); l == nil {
-		list = parent.AddList(name2)
+	if l, ok := parent.Child(name2).(ListBuilder); ok {
+		list = l
 	} else {
-		list = l.(ListBuilder)
+		list = parent.AddList(name2)
 	}
 	for i := 0; i <= index; i++ {
 		if list.Size() <= i {
